@@ -2,9 +2,10 @@ SPECIFICATION Spec
 CONSTANTS
   WLS = {4,5,6,8,9,12}
   NMin = 3
-  NMax = 4
-  NCol = 3
-  Wids = {1}
+  NMax = 3
+  NCols = {3,4}
+  NMax3 = 4
+  Wids = {1,5}
   H = 40
   U = 0
   AlgVariant = "ok"
